@@ -6,7 +6,7 @@
 (* transition returns the specified result.  Every returned state is       *)
 (* printed as one JSON line for the replay harness.                        *)
 (***************************************************************************)
-EXTENDS FLattice, FloatVec, Json, TLC
+EXTENDS FLattice, FloatVec, Json, TLC, SequencesExt
 
 VARIABLES ph,      \* "call" | "ret"
           call,    \* [kind, op, i, j, k]  : which operation on which lattice indices
@@ -29,6 +29,7 @@ Pat(p, x, y) == CASE p = 1 -> <<x, y, y, x>>
                   [] p = 4 -> <<y, y, y, x>>
 
 RedJ == IF Tier = "quick" THEN Lead4(N1) ELSE 1..N1
+Perm4 == SetToSeq({p \in [1..4 -> 1..4] : \A x, y \in 1..4 : x # y => p[x] # p[y]})
 Reductions == {"min_element", "max_element", "min_position", "max_position",
                "is_nan", "is_finite", "is_negative_bitmask"}
 
@@ -40,6 +41,8 @@ Calls ==
     \cup [kind : {"c"},  op : Compare \cup {"eq"}, i : Lead4(N1), j : 1..N1, k : {0}]
     \cup [kind : {"t"},  op : Ternary \cup {"abs_diff_eq"}, i : Lead4(N3), j : 1..N3, k : 1..N3]
     \cup [kind : {"r"},  op : Reductions, i : 1..N1, j : RedJ, k : 1..4]
+    \cup [kind : {"r"},  op : {"min_element", "max_element", "min_position", "max_position"},
+           i : Lead4(N1), j : {0}, k : 5..28]          \* every ordering of four lattice values
     \cup [kind : {"f"},  op : {"sum", "product"}, i : Lead4(N1), j : 1..N1, k : 0..3]
 
 Both(E(_)) == [f32 |-> E(F32), f64 |-> E(F64)]
@@ -54,7 +57,8 @@ Args(c) ==
       [] c.kind = "t"  -> IF c.op = "abs_diff_eq"
                           THEN <<TA(c.i), TB(c.j), F3[c.k]>>
                           ELSE <<TA(c.i), TB(c.j), TC(c.k)>>
-      [] c.kind = "r"  -> <<Pat(c.k, F1[c.i], F1[c.j])>>
+      [] c.kind = "r"  -> IF c.k <= 4 THEN <<Pat(c.k, F1[c.i], F1[c.j])>>
+                          ELSE <<[l \in 1..4 |-> VA(c.i)[Perm4[c.k - 4][l]]]>>
       [] c.kind = "f"  -> <<[n \in 1..c.k |-> IF n = 1 THEN VA(c.i)
                                               ELSE IF n = 2 THEN VB(c.j)
                                               ELSE VA(c.j)]>>
